@@ -921,10 +921,43 @@ def search(ctx):
         for p, cl in zip(case["points"], classes):
             ctx.count("search:" + case["stream"] + ":" + case["shape"],
                       key=(case["shape"], pk, tuple(p)), nontrivial=not case.get("trivial"))
+    batch_independence(ctx)
+
+
+def batch_independence(ctx):
+    """the answer for a point does not depend on the batch it is asked in: the points of a judged case are tiled to
+    batches of 1023, 1024, 1025, 2048 and 4096 rows (blocked / vectorised evaluation must cover every row)"""
+    for shape in SHAPES:
+        case = gen_case(ctx.rng, shape, "G", 64)
+        base = impl_call(shape, case["prm"], case["points"])
+        if isinstance(base, dict):
+            continue
+        for n in (1023, 1024, 1025, 2048, 4096):
+            pts = [case["points"][i % len(case["points"])] for i in range(n)]
+            res = impl_call(shape, case["prm"], pts)
+            ctx.count("search:batch:" + shape, key=(shape, n, hash(str(case["prm"]))))
+            if isinstance(res, dict) or any(res[i] != base[i % len(base)] for i in range(n)):
+                bad = None if isinstance(res, dict) else next(i for i in range(n) if res[i] != base[i % len(base)])
+                ctx.fail(FN[shape] if "FN" in globals() else "points_in_" + shape,
+                         {"shape": shape, "prm": case["prm"], "points": case["points"], "batch": n, "row": bad}, res if isinstance(res, dict) else bool(res[bad]),
+                         "the same answer as in a batch of %d points: %r" % (len(base), None if bad is None else base[bad % len(base)]),
+                         "batch-size independence of a pointwise predicate")
+                break
 
 
 # =============================================================================== replay
+def replay_batch(args):
+    base = impl_call(args["shape"], args["prm"], args["points"])
+    n = int(args["batch"])
+    res = impl_call(args["shape"], args["prm"], [args["points"][i % len(args["points"])] for i in range(n)])
+    ok = (not isinstance(res, dict)) and (not isinstance(base, dict)) and all(res[i] == base[i % len(base)] for i in range(n))
+    print("batch of %d rows tiled from %d points: %s" % (n, len(args["points"]), "same answers" if ok else "answers differ"))
+    return ok
+
+
 def replay(ctx, payload):
+    if isinstance(payload.get("args"), dict) and "batch" in payload["args"]:
+        return replay_batch(payload["args"])
     args = payload.get("args")
     if not args:
         for b in payload.get("broken", []):
